@@ -70,6 +70,7 @@ def run(rep, tier):
         rep.call(index_rules.table_index, rep, prog, "C03.table-index")
         rep.call(index_rules.unwraps, rep, prog, "C03.unwrap")
         rep.call(dispatch_rules.t_precision, rep, prog, "C03.precision", report_empty=False)
+        rep.call(dispatch_rules.headroom, rep, prog, "C03.headroom")
         rep.call(dispatch_rules.t_feature, rep, prog, "C03.feature")
         if cfg != "x86-rayon":
             rep.call(loadwidth.guard_adequacy, rep, prog, "C03.loadwidth", loadwidth.FLOOR.get(cfg, 50))
